@@ -229,16 +229,21 @@ TEMPLATE_SRC = [
     ("messy", "cif"),
     ("file", None),
 ]
-N_TEMPLATES = len(TEMPLATE_Q1) * len(TEMPLATE_MUT) * len(FAST_QUERIES) * len(TEMPLATE_SRC)
+# (first query, last query): every memo state before the mutator x every
+# query after it, plus every export before x every export after it (a file
+# written twice to the same path, stored CIF data refreshed twice)
+TEMPLATE_PAIRS = [(q1, q2) for q1 in TEMPLATE_Q1 for q2 in FAST_QUERIES] + [
+    (q1, q2) for q1 in EXPORTS for q2 in EXPORTS
+]
+N_TEMPLATES = len(TEMPLATE_PAIRS) * len(TEMPLATE_MUT) * len(TEMPLATE_SRC)
 
 
 def template_of(index):
     i = index % N_TEMPLATES
     i, s = divmod(i, len(TEMPLATE_SRC))
-    i, q2 = divmod(i, len(FAST_QUERIES))
     i, m = divmod(i, len(TEMPLATE_MUT))
-    q1 = i % len(TEMPLATE_Q1)
-    return TEMPLATE_Q1[q1], TEMPLATE_MUT[m], FAST_QUERIES[q2], TEMPLATE_SRC[s]
+    q1, q2 = TEMPLATE_PAIRS[i % len(TEMPLATE_PAIRS)]
+    return q1, TEMPLATE_MUT[m], q2, TEMPLATE_SRC[s]
 
 
 def template_run(verif_seed, index, stratum="template"):
